@@ -194,6 +194,7 @@ func (g *Gen) scCrossKey(p *Pool) []Op {
 		op("MsgUpdateID", m1, x), op("MsgUpdateID", m2, y),
 		op("IfAddSent", i, m1), op("IfAddSent", i, m2),
 		op("MsgSetStatic", m2, x), // legal: static CAN-IDs and generated ids are separate key spaces
+		op("MsgUpdateID", m2, x),  // the value m2.ID() already shows, but as a GENERATED id it is taken by m1: refused
 	}
 	switch g.r.below(3) {
 	case 0:
@@ -523,4 +524,40 @@ func (g *Gen) scResize(p *Pool) []Op {
 		op("MsgUpdateSize", m, 4), op("StdSetType", x, t16), // bits 4..19: three bytes
 		op("MsgUpdateSize", m, 2),  // refused
 		op("MsgUpdateSize", m, 3), op("StdSetType", x, t4), op("MsgUpdateSize", m, 1), op("MsgUpdateSize", m, 0)}
+}
+
+// enumMin: an enum with a minimum size larger than its values need (what the DBC importer sets),
+// referenced by the first signal of a FULL payload with a follower right behind it: values whose index
+// crosses a power of two but stays within the minimum size must be accepted and nothing may move; the
+// first index beyond the minimum size must be refused while the payload is full
+func (g *Gen) scEnumMin(p *Pool) []Op {
+	if len(p.of(KEnum)) >= 7 || len(p.of(KEval)) >= 26 || len(p.of(KSig)) >= 16 {
+		return nil
+	}
+	free := detachedStd(p)
+	t4 := typeOfSize(p, 4)
+	var m int64
+	for _, h := range p.of(KMsg) {
+		if mm := p.msg(int64(h)); mm.SizeByte() == 8 || mm.SizeByte() == 4 || mm.SizeByte() == 2 {
+			m = int64(h)
+		}
+	}
+	if len(free) < 1 || t4 == 0 || m == 0 {
+		return nil
+	}
+	f0 := free[0]
+	n := int64(len(p.ents))
+	e, v1, x, v2, v3 := n+1, n+2, n+3, n+4, n+5
+	return []Op{op("NewEnum"), op("EnumSetMinSize", e, 4), op("NewEnumValue", 0, 1), op("EnumAddValue", e, v1),
+		op("NewEnumSignal", 3, e),
+		op("NewEnumValue", 1, 2), op("NewEnumValue", 2, 5),
+		op("MsgRemoveAllSignals", m), op("MsgUpdateSize", m, 8), op("SigUpdateName", f0, 1), op("StdSetType", f0, t4),
+		op("MsgInsertSignal", m, x, 0), op("MsgInsertSignal", m, f0, 4), op("MsgUpdateSize", m, 1), // x 0..3, follower 4..7: full
+		op("EnumAddValue", e, v2),       // maximum index 1 -> 2: two bits needed, the size stays 4
+		op("EnumAddValue", e, v3),       // 5: three bits
+		op("EvalUpdateIndex", v1, 9),    // four bits: still the minimum size
+		op("EvalUpdateIndex", v1, 17),   // five bits: refused, the payload is full
+		op("EnumRemoveValue", e, v3), op("EnumAddValue", e, v3),
+		op("MsgUpdateSize", m, 2), op("EvalUpdateIndex", v1, 17), // room now: the follower moves by one bit
+		op("EvalUpdateIndex", v1, 3)}
 }
